@@ -208,6 +208,14 @@ pub fn clone_flags<S: Source>(s: &mut S) {
     chk!(!is_tracked(&u), "[c09:clone-flag] start_tracking on a clone changed the original");
     let e = u.clone().tracked();
     chk!(!is_tracked(&u) && is_tracked(&e), "[c09:clone-flag] tracked() on a clone changed the original");
+    // a paused handle (tracked(), then stop_tracking()) clones as paused
+    let p = mk(s, &[2], Dom::D4).tracked();
+    p.stop_tracking();
+    let pc = p.clone();
+    chk!(!is_tracked(&pc) && !is_tracked(&p), "[c09:clone-flag] the clone of a paused handle is tracked");
+    let rp = &pc * &u;
+    chk!(!is_tracked(&rp), "[c09:result-flag] result is tracked iff some operand is tracked - violated");
+    forget((p, pc, rp));
     // and the flags decide results as usual
     let r1 = &c * &u;
     let r2 = &a * &u;
